@@ -130,6 +130,42 @@ def stepLine (_ : Unit) (line : String) : Unit × String :=
           | some (out, _) => pure (toString n ++ " " ++ rleLine (canonRuns cmpK (fun a b => decide (a ≤ b)) (out.map (·.1))))
         else
           pure (toString n ++ " " ++ rleLine (keys.mergeSort fun a b => cmpK a b < 0 || (cmpK a b == 0 && a ≤ b)))
+    | ["atL", fn, pre, unit, count, tail] => do
+        let pre ← parseBytes? pre
+        let unit ← parseBytes? unit
+        let count ← count.toNat?
+        let tail ← parseBytes? tail
+        let mem := pre ++ (List.replicate count unit).flatten ++ tail ++ [0#8]
+        match fn with
+        | "l" => pure (match atol 64 mem with | some v => hex64 v | none => "fault")
+        | "i" => pure (match atoi 64 32 mem with | some v => hex64 v | none => "fault")
+        | "ll" => pure (match atoll 64 mem with | some v => hex64 v | none => "fault")
+        | _ => none
+    | ["qsr", esize, seed, kinds, keys] => do
+        let esize ← esize.toNat?
+        let seed ← seed.toNat?
+        let kinds ← ints? kinds
+        let keys ← ints? keys
+        let n := keys.length
+        let step (st : Option (List (Int × Nat) × List Int × List String)) (kind : Int) :=
+          match st with
+          | none => none
+          | some (a, rs, acc) =>
+            let cmp : (Int × Nat) → (Int × Nat) → Int := fun x y => cmpKeys kind.toNat x.1 y.1
+            match qsort cmp rs a with
+            | none => none
+            | some (out, rs') =>
+              some (out, rs', acc ++ [showElems (esize > 1) (canonRuns cmp pairLe (out.map fun e => (e.1, if esize > 1 then e.2 else 0)))])
+        match kinds.foldl step (some (keys.zipIdx, randStream ((n + 1) * kinds.length) (seed % 2 ^ 32), [])) with
+        | none => pure "fault"
+        | some (out, _, acc) =>
+          let kind := (kinds.getLast?.getD 0).toNat
+          let mx := keys.foldl max 0
+          let f := if kinds.isEmpty then "" else
+            String.join ((List.range (mx + 2).toNat).map fun key =>
+              match bsearch (fun (k : Int) (e : Int × Nat) => cmpKeys kind k e.1) (Int.ofNat key) out with
+              | some (some _) => "y" | some none => "n" | none => "F")
+          pure ("|".intercalate acc ++ " " ++ (if f.isEmpty then "-" else f))
     | ["bsa", _, kind, idx, keys] => do
         let kind ← kind.toNat?
         let idx ← idx.toNat?
